@@ -138,14 +138,26 @@ namespace occa {
     std::stringstream ss;
 
     // for (int i = 0; i < N; i += 1; @attr) {
-    //   idx = idcPtr[i];
+    // The index lookup [idx = idcPtr[i]] comes from buildIteratorInitializer
+    // and is placed inside the innermost loop to keep the loops perfectly nested
     ss << "for (int " << iteratorIndexName << " = 0;"
        << " " << iteratorIndexName << " < " << iteratorLengthName << ";"
        << " ++" << iteratorIndexName << ";"
-       << " " << forAttribute << ") {"
-       << "  const int " << iteratorName << " = " << iteratorPtrName << "[" << iteratorIndexName << "];";
+       << " " << forAttribute << ") {";
 
     return ss.str();
+  }
+
+  std::string iteration::buildIteratorInitializer(const std::string &iteratorName) const {
+    if (type != iterationType::indexArray) {
+      return "";
+    }
+
+    // const int idx = idcPtr[i];
+    return (
+      "const int " + iteratorName + " = "
+      + iteratorName + "_ptr[" + iteratorName + "_index];"
+    );
   }
 
   tileIteration::tileIteration(occa::iteration it_,
